@@ -40,6 +40,11 @@ PACKAGES = {
                         gen.stype('pb', [gen.key('kb', 'integer', default='1')], implements='aa'),
                         gen.stype('pc', [], implements='ab')]},
 }
+# two components that import each other (a core package and its add-on)
+PACKAGES['vfq_m1'] = {'imports': ['vfq_m2'],
+                      'types': [gen.stype('pm', [gen.key('km')], implements='aa')]}
+PACKAGES['vfq_m2'] = {'imports': ['vfq_m1'],
+                      'types': [gen.stype('pn', [gen.key('kn')], implements='ab')]}
 _PK = {}
 
 
@@ -52,7 +57,7 @@ def ensure_packages():
         for name, comp in PACKAGES.items():
             os.makedirs(os.path.join(d, name))
             open(os.path.join(d, name, '__init__.py'), 'w').write('')
-            body = ''
+            body = ''.join('  <import package="%s"/>\n' % x for x in comp.get('imports', ()))
             for t in comp['types']:
                 if isinstance(t, tuple):
                     body += '  <abstracttype name="%s"/>\n' % t[1]
@@ -81,12 +86,14 @@ LOADS = {
     'module': ['%import vfq_mod'],
     'in-section': ['<tb>', '%import vfq_a', '</tb>', ['<', W('t'), '/>']],
     'fixed-slot': ['%import vfq_b', ['<', W('t'), ' sa>'], ['</', ['=', 't'], '>']],
+    'mutual': ['%import vfq_m1', ['<', W('t'), '/>'], ['<', W('u'), ' sa/>']],
+    'mutual-2': ['%import vfq_m2', '<pm/>', '%import vfq_m1', ['<', W('t'), ' sa/>']],
     # concrete variants used as the earlier steps of a sequence
     'c-import-use': ['%import vfq_a', '<pa/>', '<pe/>'.replace('pe', 'pa x')],
     'c-import-b': ['%import vfq_b', '<pb/>', '<pc sa/>'],
     'c-bad': ['<pa/>'],
 }
-SEQS_Q = [['plain'], ['import-then-use'], ['use-before'], ['between'], ['twice'], ['bad-import'], ['nocomp'],
+SEQS_Q = [['plain'], ['mutual'], ['mutual-2'], ['import-then-use'], ['use-before'], ['between'], ['twice'], ['bad-import'], ['nocomp'],
           ['module'], ['in-section'], ['fixed-slot'], ['c-import-use', 'plain'], ['c-import-b', 'c-bad', 'plain'],
           ['c-import-use', 'c-import-b', 'use-before']]
 # every (concrete earlier load, any later load) pair against one schema object
